@@ -280,6 +280,20 @@ class Run:
             self.violations.append({"obligations": rep["obligations"], "replay": path, "reproduced": True})
         return res
 
+    def transform_mode(self, mode, n, what):
+        """Reference check of a transform on the real function (bounded): pyvc/transform_rt.py."""
+        res = rt_call(None, {"mode": mode, "seed": self.seed, "n": n}, script="transform_rt.py", timeout=1200)
+        if res.get("status") != "ok":
+            self.undecided.append({"obligations": [f"{self.pid}/transform-harness"], "why": "run-time harness failed: " + str(res.get("why"))[-300:]})
+            return res
+        self.bounded.append({"what": what, "bound": f"{n} random small inputs", "cases": res.get("runs", 0)})
+        for v in res.get("violations", [])[:2]:
+            rep = {"property": self.pid, "kind": "transform", "mode": mode, "inputs": v["input"], "problem": v["problem"],
+                   "obligations": [f"{self.pid}/{mode}/reference"], "reproduced": True}
+            path = self.write_replay(rep)
+            self.violations.append({"obligations": rep["obligations"], "replay": path, "reproduced": True})
+        return res
+
     def ledger_names(self):
         led = load_json(LEDGER, {})
         return set(k for k in led.get(self.pid, {}).keys() if k != "__sources__")
@@ -560,6 +574,14 @@ def replay(pid, path):
         spec = dict(rep["spec"])
         spec.update({"backends": [rep["backend"]], "runs": 1, "seed_exact": rep["seed"]})
         res = rt_call(None, spec, script="storage_rt.py")
+        print(json.dumps(res, indent=1, default=str)[:4000])
+        return 1 if res.get("violations") else 0
+    if rep.get("kind") == "query":
+        res = rt_call(None, {"mode": rep["mode"], "replay_text": rep["text"]}, script="query_rt.py")
+        print(json.dumps(res, indent=1, default=str)[:4000])
+        return 1 if res.get("violations") else 0
+    if rep.get("kind") == "transform":
+        res = rt_call(None, {"mode": rep["mode"], "replay": rep["inputs"]}, script="transform_rt.py")
         print(json.dumps(res, indent=1, default=str)[:4000])
         return 1 if res.get("violations") else 0
     if "inputs" not in rep:
